@@ -82,8 +82,15 @@ def handle (op : String) (args : List String) (impl : String) : Option Verdict :
   | "handler", [which, oc] => some <| Id.run do
     let some k := (match which with
       | "keygen" => some Kind.ekeygen | "fkeygen" => some .fkeygen | "refresh" => some .eresharing | _ => none) | return bad
+    -- `+key`: the relayer already has a share. The ECDSA keygen handler then returns before constructing anything (its
+    -- existence check comes first); the FROST keygen handler has no such check and runs the key generation as usual.
+    let (oc, hasKey) := match oc.splitOn "+" with
+      | [o, "key"] => (o, true)
+      | _ => (oc, false)
+    if hasKey && which == "refresh" then return bad
+    let skip := hasKey && which == "keygen"
     -- no event / fetch error: nothing is constructed; a failed Execute is logged, HandleEvents still returns nil
-    let some (d, ret) := (match oc with
+    let some (d, ret) := (if skip then some (Delta.start 0, "ok") else match oc with
       | "noevents" => some (Delta.start 0, "ok")
       -- refresh only: the event carries no hash / the topology cannot be fetched / cannot be stored: the handler
       -- gives up (logs, returns nil) before it constructs the resharing
@@ -92,6 +99,7 @@ def handle (op : String) (args : List String) (impl : String) : Option Verdict :
       | "silent" | "gto" => (handlerFrom false (table k) .never 0).head?.map (·, "ok")
       | "refused" => (handlerFrom false (table k) .refused 0).head?.map (·, "ok")
       | _ => none) | return bad
+    let oc := if hasKey then oc ++ "+key" else oc
     -- the ECDSA keygen handler first looks whether a share already exists - without the lock (not a signing read; noted)
     let d := if which == "keygen" then { d with accU := d.accU + 1 } else d
     let m := ret ++ ";" ++ showDelta d
